@@ -6,9 +6,9 @@ wt=$1; n=$2; demo=$3; shift 3
 d=$wt/seed_out/$n
 cd $wt || exit 9
 git checkout -q -- . ; cp $d/demo/$demo.rs crates/oxidd/tests/ 2>/dev/null
-echo "== demo on clean tree (must pass)"; cargo test -p oxidd --test $demo --offline 2>&1 | grep "test result" | head -2
+echo "== demo on clean tree (must pass)"; cargo test -p oxidd $SEED_CARGO_ARGS --test $demo --offline 2>&1 | grep "test result" | head -2
 git apply $d/patch.diff || exit 8
-echo "== demo with change (must fail)"; cargo test -p oxidd --test $demo --offline 2>&1 | grep "test result" | head -2
+echo "== demo with change (must fail)"; cargo test -p oxidd $SEED_CARGO_ARGS --test $demo --offline 2>&1 | grep "test result" | head -2
 echo "== full suite with change (must pass; demo excluded)"; rm -f crates/oxidd/tests/$demo.rs; cargo test --workspace --offline 2>&1 | grep "test result" | awk '{p+=$4; f+=$6} END {print "passed="p" failed="f}'
 git checkout -q -- . ; git status --short | grep -v seed_out
 echo "== checks on /repo with the change applied"
